@@ -199,4 +199,6 @@ func genC01(g *Gen) {
 			}
 		}
 	}
+
+	genC01Wide(g)
 }
